@@ -47,6 +47,10 @@ def decode_state(st):
         return -1, None
 
 
+class HarnessError(Exception):
+    pass
+
+
 class Replayer:
     def __init__(self, vals):
         from qubovert.sim import AnnealResults, AnnealResult
@@ -158,11 +162,11 @@ class Replayer:
                 elif name == "construct":
                     res, d = self.AR([self.new(a[1]), self.new(a[2])]), a[0]
                 else:
-                    raise RuntimeError("harness: unknown op %r" % (op,))
+                    raise HarnessError("harness: unknown op %r" % (op,))
                 rtype = type(res).__name__
                 if isinstance(res, list):
                     c[d] = res if isinstance(res, self.AR) else _Plain(res)
-        except RuntimeError:
+        except HarnessError:
             raise
         except Exception as e:                      # noqa - the exception IS the observation
             raised = type(e).__name__
